@@ -133,7 +133,7 @@ func (vc *VC) Assert(t Term) {
 
 // Name binds a (possibly large) term to a fresh constant to keep the script linear in size.
 func (vc *VC) Name(t Term, hint string) Term {
-	if len(t.S) < 48 {
+	if len(t.S) < 48 || strings.Contains(t.S, "!q") {
 		return t
 	}
 	c := vc.Fresh(hint, t.Sort)
